@@ -101,6 +101,9 @@ AllServed == <>[](nserved = nsent)
 HClass(q) == IF q.kind \notin TakesHandle THEN "-"
              ELSE IF q.h \in files THEN "file" ELSE IF q.h \in dirs THEN "dir"
              ELSE IF q.h > 0 /\ q.h < nexth THEN "stale" ELSE "junk"
+\* action constraint for the generation run: only the last request of a behaviour ranges over all kinds, the ones
+\* before it are those that shape the handle tables
+GenShape == (nsent' = nsent + 1 /\ nsent' < MaxReqs) => inq'[Len(inq')].kind \in {"open", "opendir", "close"}
 Emit == inq # <<>> =>
           PrintT(<<"CASE", Head(inq).kind, HClass(Head(inq)), Head(inq).hard,
                    Allowed(Head(inq).kind, Valid(Head(inq).kind, Head(inq).h, files, dirs))>>)
